@@ -19,6 +19,8 @@ import Gama.Lemmas.CovBandMat
 import Gama.Lemmas.CovBridge
 import Gama.Lemmas.CovAgree
 import Gama.Lemmas.CovNotPD
+import Gama.Lemmas.CovParseGkfBridge
+import Gama.Lemmas.CovHomRun
 import Mathlib.Analysis.SpecialFunctions.Sqrt
 import Mathlib.Tactic.NormNum
 namespace Gama.Props.C10
@@ -300,6 +302,53 @@ theorem C10_sparse_dense_agree {C U F : CovMat K} (hC : C.WF)
       (sweep F v).getD (i - 1) 0 = (forwardSubst U v).getD (i - 1) 0) :=
   sparse_dense_agree hC hsq tol htol hd hs
 
+/-- **the whole `Homogenization::run` on a multi-block input** (executable model `Hom.run`,
+    Model/Homogenization.lean: `cov.replicate()`, `cholDec`, `UpperBlockDiagonal`, the right-hand-side sweep over
+    the whole vector, the counting pass, and per block the `width == 0` scaling or the `perm`/`invp`/`T` gather,
+    the per-column forward substitution with the upper factor and the scatter that drops exact zeros — fill-in
+    included).  `cov` is any object built by `add_block` (`Built Cs tail`: any number of blocks, dims, widths),
+    `mat` a completely built sparse matrix with `rows = Σ dims = |rhs|` and no repeated column index in a row.
+    (1) `run` throws iff `BlockDiagonal::cholDec` rejects some block, and then `NonPositiveDefinite`;
+    (2) otherwise there are factors `F_k` (one per block, `bdCholBlock tol C_k = ok F_k`, positive diagonal) with
+        `L̃ L̃ᵀ = C`,  `L̃ · dense(sm) = dense(mat)`,  `L̃ · pr = rhs`,   `L̃ = blockdiag(F_kᵀ)`,
+    stated entrywise on the rows of every block (`rowsBefore Cs k + i`) and every column `c`.  This is
+    `(sm, pr) = (W·A, W·b)` with `W = L̃⁻¹`, `WᵀW = C⁻¹` for the WHOLE block-diagonal `C` — the hypotheses
+    `C = LLᵀ`, `LA' = A`, `Lb' = b` of `C10_weighting` / `C10_whitened_equivalent`, and the `W` the envelope
+    theorems take as a parameter (same form as `Ls.Env.homogenize_factor` for the LS-side model, which calls the
+    same kernels). -/
+theorem C10_homogenization_run
+    (hsq : ∀ x : K, 0 < x → SqrtFn.sq x * SqrtFn.sq x = x ∧ 0 < SqrtFn.sq x)
+    (tol : K) (htol : 0 < tol) (mat : SMat K) (cov : BlockDiag K) (rhs : Array K)
+    (Cs : List (CovMat K)) (tail : List K)
+    (hcov : cov.Built Cs tail) (hwf : ∀ C ∈ Cs, C.WF)
+    (hmat : mat.WF) (hrows : mat.rows = (Cs.map (·.dim)).sum) (hrhs : rhs.size = mat.rows)
+    (hnodup : mat.nodupRows = true) :
+    letI := fieldScalar K SqrtFn.sq
+    letI : Inhabited K := ⟨0⟩
+    ((∃ e, Hom.run tol mat cov rhs = .error e) ↔ (bdCholDec tol Cs).1 ≠ 0) ∧
+    (∀ e, Hom.run tol mat cov rhs = .error e → e = .NonPositiveDefinite) ∧
+    (∀ out, Hom.run tol mat cov rhs = .ok out →
+      ∃ Fs : List (CovMat K), Fs.length = Cs.length ∧
+        out.pr.size = rhs.size ∧ out.sm.rows = mat.rows ∧ out.sm.cols = mat.cols ∧
+        ∀ k (hk : k < Cs.length) (hk' : k < Fs.length),
+          bdCholBlock tol (Cs[k]'hk) = .ok (Fs[k]'hk') ∧ (Fs[k]'hk').WF ∧
+          (Fs[k]'hk').dim = (Cs[k]'hk).dim ∧ (Fs[k]'hk').band = (Cs[k]'hk).band ∧
+          (∀ i, 1 ≤ i → i ≤ (Cs[k]'hk).dim → 0 < (Fs[k]'hk').get i i) ∧
+          (∀ i j, 1 ≤ i → i ≤ j → j ≤ (Cs[k]'hk).dim →
+            (Cs[k]'hk).get i j = ∑ r ∈ Finset.Icc 1 i, (Fs[k]'hk').get r i * (Fs[k]'hk').get r j) ∧
+          (∀ i, 1 ≤ i → i ≤ (Cs[k]'hk).dim →
+            ∑ j ∈ Finset.Icc 1 i, (Fs[k]'hk').get i j * out.pr.getD (rowsBefore Cs k + j - 1) 0
+              = rhs.getD (rowsBefore Cs k + i - 1) 0) ∧
+          (∀ i c, 1 ≤ i → i ≤ (Cs[k]'hk).dim →
+            ∑ j ∈ Finset.Icc 1 i, (Fs[k]'hk').get i j * denseRow (out.sm.rowEntries (rowsBefore Cs k + j)) c
+              = denseRow (mat.rowEntries (rowsBefore Cs k + i)) c)) :=
+  Hom.run_spec hsq tol htol mat cov rhs Cs tail hcov hwf hmat hrows hrhs hnodup
+
+/-- non-vacuity of `C10_homogenization_run`: an uncorrelated block `[9]` and a correlated block `[[4,2],[2,5]]`
+    built by `init`/`add_block`, a 3×2 sparse matrix with unsorted rows, `rhs = (1,2,3)`, over ℝ — accepted -/
+example : ∃ out, (letI := fieldScalar ℝ Real.sqrt; Hom.run (1 / 100 : ℝ) runExMat runExCov #[1, 2, 3]) = .ok out :=
+  runEx_accepted
+
 end chol
 
 /-! ## weighting = whitening (homogenisation) -/
@@ -431,6 +480,35 @@ example : (finishObs true (processCov ({ data := [some 25, some 25] } : St Rat) 
 /-- non-vacuity of `C10_parse_dim_obs`: three distances with `<cov-mat dim="3" band="1"> 25 1 25 1 25` -/
 example : (finishObs true (processCov ({ data := [some 25, some 1, some 25, some 1, some 25] } : St Rat)
       false (.val 3) (.val 1)) [(5, false), (5, false), (5, false)]).1.err = none := by decide +kernel
+
+/-- **the two models of `GKFparser::finish_cov` agree** (statement audit, cross-cutting item 2): for every
+    `dim`/`band` attribute text and every element text, C10's `processCov` + `finishCov` (state machine
+    with first-error-wins on the list of `toDouble` results, filling the real packed `CovMat`) reports
+    exactly the error kind that C11's `Cov.verdict` (raw text, `Nat` element counter, positions only)
+    reports, under the explicit kind map `Bridge.verr`; `tok` is the tokeniser (`toDouble`), assumed to
+    accept exactly the words `toDouble` accepts (`IsFloat` and finite).  When both accept (`1 ≤ dim`, `band < dim`), the buffer C10 fills
+    is the word list in order and C11's write positions are the packed offsets `0, 1, 2, …`.
+    Known difference outside this statement: a NEGATIVE C++ `int elements` (`band` so large that
+    `dim(band+1) − band(band+1)/2 < 0`) is `NotEnough` in C10 (as in the C++) but truncated to 0 in C11
+    (`Bridge.differ_on_negative_size`) — unobservable, `process_cov` has refused `band ≥ dim` before. -/
+theorem C10_finishcov_models_agree (tok : List Char → Option K)
+    (htok : ∀ w, (tok w).isSome = Lit.toDoubleOk w) (s0 : St K) (sdim sband text : List Char)
+    (hs : s0.err = none) (hdata : s0.data = (Cov.words text).map tok) :
+    (finishCov (processCov s0 false (Bridge.attrOf sdim) (Bridge.attrOf sband))).1.err
+        = Bridge.verr (Cov.verdict sdim sband text) ∧
+    (∀ (s : St K) (ps : List (Nat × Nat)), s.err = none → s.data = (Cov.words text).map tok →
+      1 ≤ s.idim → s.iband < s.idim → Cov.finishCov s.idim s.iband text = .ok ps →
+      (finishCov s).1.err = none ∧
+      (finishCov s).2.buf.toList = (Cov.words text).map (fun w => (tok w).getD 0) ∧
+      ps.map (fun q => Packed.idx s.idim s.iband q.1 q.2)
+        = (List.range ps.length).map (fun (i : Nat) => some (i : Int))) := by
+  refine ⟨Bridge.verdict_bridge tok htok s0 sdim sband text hs hdata, ?_⟩
+  intro s ps h1 h2 h3 h4 h5
+  obtain ⟨a, b, c, _⟩ := Bridge.finishCov_values tok htok s text ps h1 h2 h3 h4 h5
+  exact ⟨a, b, c⟩
+
+/-- non-vacuity of the tokeniser hypothesis of `C10_finishcov_models_agree` -/
+example : ∀ w, (Bridge.tokN w).isSome = Lit.toDoubleOk w := Bridge.tokN_spec
 
 end parse
 
